@@ -14,7 +14,7 @@
    in a tick, and whatever they raise, its state is the same -- this is the "one or several consumers" clause. *)
 From Coq Require Import ZArith NArith Bool String List.
 Require Import PV.Base.Val PV.Gen.Window PV.Model.Window.
-Require Import PV.Proofs.Window PV.Proofs.WindowSpec PV.Proofs.WindowCount PV.Proofs.WindowState.
+Require Import PV.Proofs.Window PV.Proofs.WindowSpec PV.Proofs.WindowCount PV.Proofs.WindowState PV.Proofs.WindowMixed.
 Import ListNotations.
 Open Scope Z_scope.
 Open Scope list_scope.
@@ -173,6 +173,28 @@ Theorem C11_state_consumers : forall u kq k ts, increasing 0 ts ->
   = (final (prog_state (enc_queue kq) u k) ts, map (fun _ => None) ts) /\
   glog (final (prog_state (enc_queue kq) u k) ts) = cons_log (state_rdd u kq) k 0 ts.
 Proof. exact stateful_consumers. Qed.
+
+(* ================= the full statement, its proved part, its refutation =================
+   Full: "wherever the stateful stream is registered in a well-formed program on its queue source, its RDD after
+   interval n is the fold of the whole history".  This is FALSE of the code as it is: a stream registered before
+   it that raises inside the tick callback (countByWindow with a slide > 1 before its first emission: the
+   window's RDD is None and TransformedDStream._step applies the user function to it) ends the callback, the
+   stateful stream is not stepped in that interval although the source has already popped the batch.
+   Proved part: C11_state_rdd / C11_state_spec above -- the stateful stream registered directly after its source
+   (stream 1), whatever is registered after it.  The refutation's witness is corpus/C11/finding_count_then_state.json
+   (known finding, open). *)
+Definition C11_state_spec_full : Prop := state_spec_any_position.
+Theorem C11_state_spec_registered_first_partial : forall u kq tail ts, increasing 0 ts -> (0 < length ts)%nat ->
+  rdd_of (final (Src (enc_queue kq) :: Stateful u 0 :: tail) ts) 1
+  = RData (map enc_kv (state_after u kq (length ts))).
+Proof. exact state_collected. Qed.
+Theorem C11_state_spec_full_refuted : ~ C11_state_spec_full.
+Proof. exact state_spec_any_position_refuted. Qed.
+Theorem C11_state_spec_full_witness :
+  rdd_of (final witness_graph [1; 2]) 6 = RData [] /\
+  snd (run_graph witness_graph [1; 2]) = [Some "AttributeError"%string; None] /\
+  RData (map enc_kv (state_after u_sum witness_kq 2)) = RData [VTup [VInt 0; VInt 1]].
+Proof. exact witness_state. Qed.
 
 (* ================= non-vacuity / sanity ================= *)
 Example increasing_example : increasing 0 [1; 2; 4; 7].
